@@ -292,9 +292,79 @@ def extract(h):
     out.append("/-- typeset/syntax.rs `interpret`: the letters its `match option.spec.short` knows, with their role (sorted) -/")
     out.append("def interpretLetters : List (Char × String) := ["
                + ", ".join(f"({h.lean_char(c)}, {h.lean_str(r)})" for c, r in interpret_letters(h)) + "]\n")
+    audit = parser_audit(h, files)
+    out.append("/-- every built-in module of yash-builtin: how its arguments are parsed (`common` = `parse_arguments` with the listed "
+               "tables, `[]` = the empty table; `typeset` = typeset's own parse; `bespoke` = its own syntax.rs parser, modelled; "
+               "`common+walker` = getopts; `noarg` = common/no_arg.rs; `ignores` = arguments unused) -/")
+    out.append("def builtinParsers : List (String × String × List String) := [\n" + ",\n".join(
+        f"  ({h.lean_str(m)}, {h.lean_str(k)}, [{', '.join(h.lean_str(t) for t in ts)}])" for m, k, ts in audit) + "]\n")
     out.append("def all : List (String × List Row) := [\n"
                + ",\n".join(f"  ({h.lean_str(n)}, specs_{n})" for n, _, _, _ in tables) + "]\n")
     h.write("ArgSpecs", "\n".join(out))
+
+
+# ------------------------------------------------------------------------------------------------------------------
+# audit: how does every built-in of yash-builtin parse its arguments?  (a new parser of its own must fail loudly)
+
+BESPOKE = {"set": "set/syntax.rs", "kill": "kill/syntax.rs", "typeset": "typeset/syntax.rs"}
+TYPESET_USERS = ("export", "readonly")
+# code outside the argument parsers that looks at a leading `-` for another reason
+DASH_WHITELIST = {"command/identify.rs": r"alias\.name\.starts_with\('-'\)", "umask/symbol.rs": r"Some\('-'\)\s*=>\s*Self::Remove"}
+
+
+def parser_audit(h, files):
+    lib = strip_comments(h.read(f"{SRC}/lib.rs"))
+    mods = [m for m in re.findall(r"pub\s+mod\s+(?:r#)?(\w+)\s*;", lib) if m != "common"]
+    if len(mods) < 25:
+        h.fail(f"args: only {len(mods)} built-in modules found in lib.rs")
+    rows = []
+    for mod in sorted(mods):
+        mfiles = [f for f in files if f[len(SRC) + 1:] == mod + ".rs" or f[len(SRC) + 1:].startswith(mod + "/")]
+        if not mfiles:
+            h.fail(f"args: no source file for built-in module {mod}")
+        text = {f[len(SRC) + 1:]: non_test(strip_comments(h.read(f))) for f in mfiles}
+        allsrc = "\n".join(text.values())
+        tables = sorted(set(a.split("::")[-1] if a != "&[]" else "[]"
+                            for a in re.findall(r"parse_arguments\(\s*(&\s*\[\s*\]|[A-Za-z_][\w:]*)\s*,", allsrc)))
+        tables = [t.replace(" ", "") for t in tables]
+        if mod in BESPOKE:
+            f = BESPOKE[mod]
+            if f not in text or not re.search(r"\bfn\s+parse\b", text[f]) or "parse_arguments(" in text[f]:
+                h.fail(f"args: {f} is expected to define the bespoke parser of `{mod}`")
+            kind = "bespoke"
+        elif mod in TYPESET_USERS:
+            if not re.search(r"(?<![\w.])parse\(\s*PORTABLE_OPTIONS\s*,", allsrc) or tables:
+                h.fail(f"args: `{mod}` is expected to call typeset's parse with PORTABLE_OPTIONS")
+            kind = "typeset"
+        elif mod == "getopts":
+            if "getopts/model.rs" not in text or not re.search(r"\bfn\s+next\b", text["getopts/model.rs"]) or not tables:
+                h.fail("args: getopts is expected to parse its own options with parse_arguments and the script's with model.rs `next`")
+            kind = "common+walker"
+        elif tables:
+            kind = "common"
+        elif re.search(r"pub\s+use\s+super::(?:r#)?(\w+)::syntax\s*;", allsrc):
+            # the syntax module of another built-in, re-exported (continue -> break)
+            kind = "as:" + re.search(r"pub\s+use\s+super::(?:r#)?(\w+)::syntax\s*;", allsrc).group(1)
+        elif re.search(r"no_arg::|warn_if_any_argument", allsrc):
+            kind = "noarg"
+        elif re.search(r"fn\s+main\s*(?:<[^>]*>)?\s*\([^)]*_args\s*:", allsrc):
+            kind = "ignores"
+        else:
+            h.fail(f"args: built-in `{mod}` neither calls parse_arguments nor is a known bespoke / no-argument built-in: "
+                   "a parser of its own that C20 does not model")
+        if mod not in BESPOKE:
+            for rel, src in text.items():
+                for m in re.finditer(r"starts_with\(\s*'-'\s*\)|strip_prefix\(\s*'-'\s*\)|strip_prefix\(\s*\"-|starts_with\(\s*\"-|==\s*\"--\"|Some\('-'\)", src):
+                    line = src[src.rfind("\n", 0, m.start()) + 1:src.find("\n", m.end())]
+                    if rel == "getopts/model.rs" or (rel in DASH_WHITELIST and re.search(DASH_WHITELIST[rel], line)):
+                        continue
+                    h.fail(f"args: {rel} inspects a leading `-` by hand outside the modelled parsers: {line.strip()}")
+        rows.append((mod, kind, tables))
+    kinds = {m: k for m, k, _ in rows}
+    for m, k, _ in rows:
+        if k.startswith("as:") and kinds.get(k[3:]) != "common":
+            h.fail(f"args: `{m}` re-exports the syntax module of `{k[3:]}`, which is not a common-parser built-in")
+    return rows
 
 
 TABLES = {"ArgSpecs": extract}
